@@ -3,6 +3,9 @@
    same answer for the same request in every session, alive until EOF) is observed by the correspondence check. *)
 From Coq Require Import ZArith List Bool.
 Require Import CGT.Model.Date CGT.Model.Mcp CGT.Proofs.McpFacts.
+Require CGT.Model.Dsl.
+Require Import CGT.Model.McpTools CGT.Proofs.McpToolsFacts.
+From Coq Require Import String.
 Require Import CGT.Model.Agg CGT.Model.Report CGT.Model.Config CGT.Proofs.DateFacts CGT.Proofs.SliceFacts CGT.Proofs.McpExplain.
 Import ListNotations.
 
@@ -37,3 +40,53 @@ Print Assumptions C20_one_response_each.
 Print Assumptions C20_history_free.
 Print Assumptions C20_answer_depends_on_request_only.
 Print Assumptions C20_explain_year.
+
+(* The tool layer (Model/McpTools.v), for ANY DSL reader, JSON reader, calculator and list of disposals a report carries: *)
+Section C20_tools.
+  Context {Txs Rep Disp : Type}.
+  Context (parse_dsl parse_json : Dsl.text -> option Txs) (is_empty : Txs -> bool) (calc : Txs -> option Z -> option Rep)
+          (disposals : Rep -> list Disp) (d_date : Disp -> Date.date) (d_tick : Disp -> Dsl.text).
+
+  (* white space around the transactions argument - any run of HT LF VT FF CR and spaces before and after - changes no tool's answer:
+     each tool sees the argument only through the trimmed text *)
+  Theorem C20_outer_space_is_ignored : forall a s b y, all_space a -> all_space b ->
+    parse_input parse_dsl parse_json (a ++ s ++ b) = parse_input parse_dsl parse_json s /\
+    calculate_tool parse_dsl parse_json is_empty calc (a ++ s ++ b) y = calculate_tool parse_dsl parse_json is_empty calc s y.
+  Proof.
+    intros a s b y Ha Hb. split; [apply parse_input_trim|apply calculate_trim]; apply trim_pad; assumption.
+  Qed.
+
+  (* JSON is chosen exactly by a leading '[' of the trimmed text; an empty list is refused by calculate_report *)
+  Theorem C20_input_sniffing : forall s, edge_unmodelled (trim s) = false ->
+    parse_input parse_dsl parse_json s =
+    match (if starts_with_bracket (trim s) then parse_json (trim s) else parse_dsl (trim s)) with Some x => TOk x | None => TErr end.
+  Proof. exact (sniff parse_dsl parse_json). Qed.
+  Theorem C20_empty_list_refused : forall s y txs, parse_input parse_dsl parse_json s = TOk txs -> is_empty txs = true ->
+    calculate_tool parse_dsl parse_json is_empty calc s y = TErr.
+  Proof. exact (calculate_refuses_empty parse_dsl parse_json is_empty calc). Qed.
+
+  (* explain_matching finds every disposal that calculate_report of the derived tax year lists, in any letter case of the ticker,
+     and answers only with disposals of that report *)
+  Theorem C20_explain_tool_finds_listed : forall s ds tk d r x,
+    read_iso_date ds = TOk d -> calculate_tool parse_dsl parse_json is_empty calc s (Some (explain_year d)) = TOk r ->
+    In x (disposals r) -> d_date x = d -> Dsl.upper_text (d_tick x) = Dsl.upper_text tk ->
+    exists x', explain_tool parse_dsl parse_json is_empty calc disposals d_date d_tick s ds tk = TOk x' /\
+               In x' (disposals r) /\ d_date x' = d /\ tick_eq_ci (d_tick x') tk = true.
+  Proof. exact (explain_finds_listed parse_dsl parse_json is_empty calc disposals d_date d_tick). Qed.
+  Theorem C20_explain_tool_only_listed : forall s ds tk x,
+    explain_tool parse_dsl parse_json is_empty calc disposals d_date d_tick s ds tk = TOk x ->
+    exists d r, read_iso_date ds = TOk d /\ calculate_tool parse_dsl parse_json is_empty calc s (Some (explain_year d)) = TOk r /\
+                In x (disposals r) /\ d_date x = d.
+  Proof. exact (explain_only_listed parse_dsl parse_json is_empty calc disposals d_date d_tick). Qed.
+End C20_tools.
+Print Assumptions C20_outer_space_is_ignored.
+Print Assumptions C20_input_sniffing.
+Print Assumptions C20_empty_list_refused.
+Print Assumptions C20_explain_tool_finds_listed.
+Print Assumptions C20_explain_tool_only_listed.
+
+Example C20_trim_applies :
+  let sp := [Dsl.ch 32; Dsl.ch 10; Dsl.ch 9; Dsl.ch 13; Dsl.ch 12] in
+  trim (sp ++ Dsl.T "[1]" ++ sp) = Dsl.T "[1]" /\ starts_with_bracket (trim (sp ++ Dsl.T "[1]")) = true /\
+  all_space sp /\ trim [] = [] /\ trim (sp ++ Dsl.T "a b" ++ sp) = Dsl.T "a b".
+Proof. cbv zeta. repeat split; vm_compute; reflexivity. Qed.
